@@ -7,6 +7,7 @@ import (
 	"path/filepath"
 	"sort"
 	"strings"
+	"syscall"
 	"time"
 
 	intoto "github.com/in-toto/in-toto-golang/in_toto"
@@ -61,6 +62,8 @@ var c02Kinds = []linkKind{
 	// key-authorized functionaries whose evidence has an unusual but legal form
 	{"honest-key-A-whose-signature-also-carries-an-unrelated-certificate", "A", "key", false},
 	{"honest-key-B-filed-as-a-symlink-to-the-link-file", "B", "key", false},
+	// nobody signed this file: it lists two different made-up signature values under B's key id
+	{"two-junk-signatures-under-B's-id(no-genuine-one)", "", "", false},
 	{"garbage-bytes", "", "", false},
 	{"truncated-json", "", "", false},
 	// observed: the library accepts it (the link's name is never compared with the
@@ -252,6 +255,19 @@ func newC02Env(c *core.Ctx, dsse bool) (*c02Env, error) {
 	put("A-plus-junk-signature-of-other-id-before", name(e.fn["A"]), junk(otherID, true))
 	put("A-plus-junk-signature-of-other-id-after", name(e.fn["A"]), junk(otherID, false))
 	put("A-plus-junk-signature-with-A's-id-first", name(e.fn["A"]), junk(e.fn["A"].Pub.KeyID, true))
+	{
+		md, _ := gen.NewMeta(other, dsse)
+		doc, _ := gen.ParseJSON(dumpBytes(c, md))
+		d := doc.(map[string]any)
+		bid := e.fn["B"].Pub.KeyID
+		if dsse {
+			d["signatures"] = []any{map[string]any{"keyid": bid, "sig": "AA=="}, map[string]any{"keyid": bid, "sig": "AP8="}}
+		} else {
+			d["signatures"] = []any{map[string]any{"keyid": bid, "sig": "00"}, map[string]any{"keyid": bid, "sig": "00ff"}}
+		}
+		b, _ := json.Marshal(d)
+		put("two-junk-signatures-under-B's-id(no-genuine-one)", name(e.fn["B"]), b)
+	}
 	put("garbage-bytes", "s.99999999.link", []byte("\x00\x01 this is not json \xff"))
 	put("truncated-json", "s.88888888.link", aBytes[:len(aBytes)/2])
 	{
@@ -500,6 +516,7 @@ func runC02(c *core.Ctx) {
 	}
 	c02Redefined(c, owner, &acc)
 	c02Names(c, owner, &acc, &rej)
+	c02ManyFiles(c, owner, &acc, &rej)
 	c.Obs("thresholds_met_and_accepted", acc)
 	c.Obs("thresholds_not_met_and_rejected", rej)
 }
@@ -636,6 +653,74 @@ func c02Names(c *core.Ctx, owner gen.KeyPair, acc, rej *int64) {
 	}
 }
 
+// c02ManyFiles: whatever else is in the link directory - here several hundred stray files named like
+// links of the steps, in a process that may only have 128 files open at a time - two honest links of
+// two authorized functionaries satisfy threshold 2, and one does not.
+func c02ManyFiles(c *core.Ctx, owner gen.KeyPair, acc, rej *int64) {
+	if c.Shard != 4%c.NShards {
+		return
+	}
+	var lim syscall.Rlimit
+	if syscall.Getrlimit(syscall.RLIMIT_NOFILE, &lim) != nil {
+		return
+	}
+	low := lim
+	low.Cur = 128
+	allow := [][]string{{"ALLOW", "*"}}
+	for _, dsse := range []bool{false, true} {
+		env, err := newC02Env(c, dsse)
+		if err != nil {
+			continue
+		}
+		A, B := env.fn["A"], env.fn["B"]
+		for _, honest := range []int{2, 1} {
+			id := fmt.Sprintf("many-files/dsse=%v/honest-links=%d", dsse, honest)
+			if !c.Want(id) {
+				continue
+			}
+			dir := filepath.Join(c.WorkDir, "c02-many")
+			os.RemoveAll(dir)
+			mkdirs(dir)
+			layout := gen.NewLayout([]intoto.Step{
+				gen.Step("fetch", 1, gen.KeyIDs(A.KeyPair), allow, allow),
+				gen.Step("s", 2, gen.KeyIDs(A.KeyPair, B.KeyPair), allow, allow)}, nil, gen.KeyMap(A.KeyPair, B.KeyPair))
+			md, _ := gen.SignedMeta(layout, dsse, owner.Priv)
+			for _, sn := range []string{"fetch", "s"} {
+				for k := 0; k < 150; k++ {
+					// all of them sort in front of the honest links (key ids are lower-case hexadecimal)
+					os.WriteFile(filepath.Join(dir, fmt.Sprintf("%s.!!!!%04d.link", sn, k)), []byte("not a link"), 0644)
+				}
+			}
+			gen.WriteLink(dir, gen.NewLink("fetch", nil, gen.Artifacts(map[string]string{"in": "i"})), A.Priv, dsse)
+			link := gen.NewLink("s", gen.Artifacts(map[string]string{"in": "i"}), gen.Artifacts(map[string]string{"out": "o"}))
+			gen.WriteLink(dir, link, A.Priv, dsse)
+			if honest == 2 {
+				gen.WriteLink(dir, link, B.Priv, dsse)
+			}
+			syscall.Setrlimit(syscall.RLIMIT_NOFILE, &low)
+			c.Begin(id)
+			obs := Verify(VerifyArgs{Layout: md, Keys: gen.KeyMap(owner), LinkDir: dir, Cwd: c.WorkDir})
+			c.End(id)
+			syscall.Setrlimit(syscall.RLIMIT_NOFILE, &lim)
+			c.Eval(1)
+			detail := map[string]any{"dsse": dsse, "honest_links_for_the_threshold_2_step": honest, "stray_files_named_like_links": 300, "open_file_limit_during_the_call": 128, "error": errStr(obs.Err)}
+			reportTrace(c, id, obs, detail)
+			c.Class("many-files", dsse, honest)
+			switch {
+			case honest == 2 && !obs.Accepted():
+				c.Violation("two honest links of two authorized functionaries do not satisfy threshold 2 in a directory with many stray files", id, detail)
+			case honest == 1 && obs.Accepted():
+				c.Violation("threshold 2 met with one honest link in a directory with many stray files", id, detail)
+			case honest == 2:
+				*acc++
+			default:
+				*rej++
+			}
+			os.RemoveAll(dir)
+		}
+	}
+}
+
 func certCount(pop []int, mode string) int {
 	if mode == "keys" {
 		return 0
@@ -718,7 +803,7 @@ func init() {
 	core.Register(&core.Property{
 		ID:    "C02",
 		Level: "exploration",
-		Rule: "layout with steps t (earlier), s (under test), u (later); step s with threshold 1..3 and authorization by {2 listed keys, 1 certificate constraint + layout root/intermediate CA, both}; link-file populations for s = all multisets of size<=2 (quick) / <=3 (thorough, + 2000 random ones of size 4-8) over a catalogue of 28 link kinds (honest key A/B, honest certificate C / D via intermediate, tampered, unsigned, unauthorized key, key of an earlier / a later step, copy under another name, copy with forged key-id entry without / with the honest certificate, relabelled copy (forged id with the honest signature value and certificate), junk signatures before/after, expired / foreign-root / constraint-failing certificate, certificate repeating one of two required organizations, tampered copy filed under nine characters of the honest functionary's key id, copy under the upper-case spelling of the honest functionary's key id, honest key-authorized link whose signature also carries an unrelated certificate, honest link filed as a symlink, garbage, truncated JSON, link of another step renamed) x 2 wrappers; the earlier step t also admits certificate functionary C (its verdict must not leak into s); every population of >=2 files is verified 8 times (map order), half of the verifications with the intermediate of a foreign chain passed as caller-supplied intermediate, half with a (non-matching) parameter dictionary, half through InTotoVerifyWithDirectory; the same populations against layouts that name no CA at all (no certificate counts, although the verifying host's own trust store - SSL_CERT_FILE - trusts the functionaries' CA); links that never count report other artifacts than the honest ones; VerifyLinkSignatureThesholds is also called directly and its map inspected; a sequence of two layouts that define one key id with different key material; finally single-step chains whose step name and link directory name contain characters of file-name patterns ([ ] * ? \\ { }), blanks and non-ASCII letters (12 step names x 7 directory names, with and without the honest link). Oracle: expected number of distinct counting functionaries known by construction. " +
+		Rule: "layout with steps t (earlier), s (under test), u (later); step s with threshold 1..3 and authorization by {2 listed keys, 1 certificate constraint + layout root/intermediate CA, both}; link-file populations for s = all multisets of size<=2 (quick) / <=3 (thorough, + 2000 random ones of size 4-8) over a catalogue of 28 link kinds (honest key A/B, honest certificate C / D via intermediate, tampered, unsigned, unauthorized key, key of an earlier / a later step, copy under another name, copy with forged key-id entry without / with the honest certificate, relabelled copy (forged id with the honest signature value and certificate), junk signatures before/after, expired / foreign-root / constraint-failing certificate, certificate repeating one of two required organizations, tampered copy filed under nine characters of the honest functionary's key id, copy under the upper-case spelling of the honest functionary's key id, honest key-authorized link whose signature also carries an unrelated certificate, honest link filed as a symlink, garbage, truncated JSON, link of another step renamed) x 2 wrappers; the earlier step t also admits certificate functionary C (its verdict must not leak into s); every population of >=2 files is verified 8 times (map order), half of the verifications with the intermediate of a foreign chain passed as caller-supplied intermediate, half with a (non-matching) parameter dictionary, half through InTotoVerifyWithDirectory; the same populations against layouts that name no CA at all (no certificate counts, although the verifying host's own trust store - SSL_CERT_FILE - trusts the functionaries' CA); links that never count report other artifacts than the honest ones; VerifyLinkSignatureThesholds is also called directly and its map inspected; a sequence of two layouts that define one key id with different key material; finally single-step chains whose step name and link directory name contain characters of file-name patterns ([ ] * ? \\ { }), blanks and non-ASCII letters (12 step names x 7 directory names, with and without the honest link). Oracle: expected number of distinct counting functionaries known by construction.  A link directory with 300 stray files named like links, verified while the process may only have 128 files open: two honest links meet threshold 2, one does not." +
 			"non-trivial = at least one file for the step; distinct = (kind multiset, threshold, authorization, wrapper)",
 		Assumptions: []string{"a junk signature entry that carries the honest signer's own key id before the honest entry is not judged", "a link that an authorized functionary signed for ANOTHER step, renamed to this step's file name, is not judged (observed: it is counted; the statement only speaks about who signed)", "all links of a case report identical artifacts (agreement is C05's business)"},
 		Workers:     func(string) int { return 16 },
